@@ -12,6 +12,7 @@ sys.path.insert(0, str(Path(__file__).resolve().parent))
 sys.path.insert(0, str(Path(__file__).resolve().parent.parent / 'translate'))
 import lib  # noqa
 import c01_tables  # noqa
+import c03_cnt  # noqa
 import c01_common as cm  # noqa
 
 PID = 'C03'
@@ -21,9 +22,12 @@ VALUE_KINDS = ['fixtemp', 'cflux']
 COQ_HEAD = '\n'.join([
     'From Coq Require Import String List ZArith.', 'Import ListNotations.',
     'From FV.C01 Require Import Str Dec.', 'From FV.C01 Require Model.',
-    'From FV.C03 Require Import Model.',
+    'From FV.C03 Require Import Model.', 'From FV.C03 Require Fmt.',
     'Open Scope string_scope.', 'Set Printing Width 100000.', 'Set Printing Depth 100000.',
     'Definition dq s := match parse_dec_free s with Some d => d | None => dec_zero end.',
+    '(* "%.<k>E" of the binary64 (-1)^neg * m * 2^e, computed by the model (Fmt.v) *)',
+    'Definition fq (k : Z) (neg : bool) (m e : Z) : dec :=',
+    '  match Fmt.fmt_dec k neg m e with Some d => d | None => dec_zero end.',
     '(* node groups come from the C01 model of the .msh reader *)',
     'Definition read_both (msh cnt : list string) : list string :=',
     '  match FV.C01.Model.read_ngroups msh with',
@@ -128,20 +132,36 @@ def dec_or_none(h, frac):
     return None if math.isnan(v) else cm.f2dec(v, frac)
 
 
+def float_parts(v):
+    """finite binary64 -> (neg, m, e) with |v| = m * 2^e exactly (m = 0 for +-0.0)"""
+    neg = math.copysign(1.0, v) < 0
+    if v == 0:
+        return neg, 0, 0
+    mant, exp = math.frexp(abs(v))
+    m = int(mant * 2 ** 53)
+    assert float(m) * 2.0 ** (exp - 53) == abs(v) if exp - 53 > -1074 else True
+    return neg, m, exp - 53
+
+
+def coq_fq(v, frac):
+    """the decimal the writer prints for v, computed inside Coq from the exact binary64"""
+    neg, m, e = float_parts(v)
+    return f'(fq {frac} {"true" if neg else "false"} {lib.coq_Z(m)} {lib.coq_Z(e)})'
+
+
 def coq_table(ids, rows, frac):
     items = []
     for i, r in zip(ids, rows):
         cells = []
         for h in r:
-            d = dec_or_none(h, frac)
-            cells.append('None' if d is None else f'Some {cm.coq_dec(d)}')
+            v = fx(h) if isinstance(h, str) else h
+            cells.append('None' if math.isnan(v) else f'Some {coq_fq(v, frac)}')
         items.append(f'({lib.coq_Z(i)}, {lib.coq_list(cells)})')
     return lib.coq_list(items)
 
 
 def coq_values(ids, rows, frac):
-    return lib.coq_list([f'({lib.coq_Z(i)}, {cm.coq_dec(cm.f2dec(fx(r[0]), frac))})'
-                         for i, r in zip(ids, rows)])
+    return lib.coq_list([f'({lib.coq_Z(i)}, {coq_fq(fx(r[0]), frac)})' for i, r in zip(ids, rows)])
 
 
 def coq_cnt(mesh):
@@ -213,15 +233,45 @@ def gen_group_case(rng, base_msh_lines, node_ids, cid):
     ngroups = []
     for j in range(rng.randint(1, 3)):
         name = rng.choice(['NG', 'fix_', 'Load', 'n', 'N', 'ng', 'NG1', 'A', 'AB', 'ab']) + str(j + 1)
+        if ngroups and rng.random() < 0.4:
+            # a name that extends / is extended by an earlier group's name (TOP / TOP_EDGE, FIX / FIX2,
+            # XFIX / FIX): header patterns that are not anchored collect the other group's nodes
+            other = rng.choice(ngroups)[0]
+            name = rng.choice([other + rng.choice(['2', '0', '_A', 'x', '_EDGE']),
+                               rng.choice(['X', 'a', 'N_']) + other,
+                               other[:-1] if len(other) > 1 and other[:-1] not in ('ALL',) else other + '1'])
+        if name in [g[0] for g in ngroups] or name == 'ALL':
+            name += '_%d' % (j + 1)
         ngroups.append([name, rng.sample(node_ids, rng.randint(1, min(4, len(node_ids))))])
-    msh = [l for l in base_msh_lines if l != '!END']
+    # blocks: a group may be given in several blocks, adjacent or separated by blocks of other groups
+    blocks = []
     for name, ids in ngroups:
+        if len(ids) >= 2 and rng.random() < 0.45:
+            cut = sorted(rng.sample(range(1, len(ids)), rng.randint(1, min(2, len(ids) - 1))))
+            parts = [ids[a:b] for a, b in zip([0] + cut, cut + [len(ids)])]
+        else:
+            parts = [ids]
+        blocks.append([[name, part] for part in parts])
+    order = []
+    if rng.random() < 0.5:
+        # interleave, keeping the order of the blocks of one group (FIX / LOAD / FIX)
+        pend = [list(b) for b in blocks]
+        while any(pend):
+            b = rng.choice([x for x in pend if x])
+            order.append(b.pop(0))
+    else:
+        order = [x for b in blocks for x in b]
+    # members in file order: the blocks of one name are concatenated in the order they appear
+    first_seen = []
+    for name, _ in order:
+        if name not in first_seen:
+            first_seen.append(name)
+    ngroups = [[name, [i for n2, part in order if n2 == name for i in part]] for name in first_seen]
+    msh = [l for l in base_msh_lines if l != '!END']
+    for name, ids in order:
         msh.append(f'!NGROUP, NGRP={name}')
         if rng.random() < 0.3 and len(ids) % 2 == 0:
             msh += [f'{ids[k]},{ids[k + 1]}' for k in range(0, len(ids), 2)]
-        elif rng.random() < 0.3 and len(ids) >= 2:
-            cut = rng.randint(1, len(ids) - 1)      # the same group in two blocks
-            msh += [str(i) for i in ids[:cut]] + [f'!NGROUP, NGRP={name}'] + [str(i) for i in ids[cut:]]
         else:
             msh += [str(i) for i in ids]
     msh.append('!END')
@@ -319,7 +369,10 @@ def main(ctx):
                 'explicit ids; non-trivial = at least one prescription; distinct = distinct '
                 '(tables, solution type) or distinct texts')
     ctx.trusted += [
-        'translator translate/c01_tables.py (ignore pattern, digits of the default formats)',
+        'translators translate/c01_tables.py (ignore pattern, digits of the default formats, block merging, '
+        'effect program) and translate/c03_cnt.py (_generate_constraints on meaning, section table of '
+        'write_cnt); a region they cannot read is taken from translate/c03_baseline.json and the '
+        'correspondence is widened (notes.tie)',
         'harness glue: file <-> lines, float -> k-digit decimal (Python decimal, exact), dump of '
         'constraints/settings/node groups read back; the node groups the .cnt model uses come from '
         'the C01 model of the .msh reader (Model.read_ngroups, compared with femio\'s node_groups)',
@@ -331,15 +384,26 @@ def main(ctx):
         'significant digits)',
     ]
     tie_ok = True
+    degraded = {}
+    tables = {}
     try:
-        tables, consumed = c01_tables.translate(str(lib.REPO))
+        # regions the translator cannot read are taken from the committed baseline
+        # (translate/c03_baseline.json) and listed in `degraded`: tie T -> H with a widened
+        # correspondence below, never by itself a violation
+        tables, consumed, degraded = c03_cnt.translate(str(lib.REPO))
         ctx.sources = {k: v for k, v in consumed.items()
                        if any(s in k for s in ('_read_files', '_read_str_data', 'write_data', 'read_array',
-                                               '_generate_constraints'))}
-        lib.write_if_changed(lib.COQ / 'C01' / 'gen' / 'Tables.v', c01_tables.emit(tables))
-    except (c01_tables.TranslateError, SyntaxError, OSError) as e:
+                                               '_generate_constraints', 'write_cnt', '_read_node_groups',
+                                               '_merge_groups'))}
+        lib.write_if_changed(lib.COQ / 'C01' / 'gen' / 'Tables.v', c03_cnt.emit_tables(tables))
+        lib.write_if_changed(lib.COQ / 'C03' / 'gen' / 'CntSections.v', c03_cnt.emit_sections(tables))
+    except (c01_tables.TranslateError, SyntaxError, OSError, KeyError, ValueError) as e:
         tie_ok = False
-        ctx.notes['translator_error'] = str(e)
+        ctx.notes['translator_error'] = f'{type(e).__name__}: {e}'
+    relevant = {k: v for k, v in degraded.items() if k in c03_cnt.RELEVANT}
+    widened = bool(relevant)
+    if degraded:
+        ctx.notes['translator_degraded'] = degraded
     proof_ok = False
     props = lib.COQ / 'C03' / 'Props.v'
     if tie_ok and props.exists():
@@ -349,6 +413,9 @@ def main(ctx):
     cfg_ok = True
     if tie_ok and proof_ok and (lib.COQ / 'C03' / 'PropsCfg.v').exists():
         cfg_ok, log2 = ctx.build_props('C03/PropsCfg.v', scan_dirs=[lib.COQ / 'C03'])
+    sec_ok = True
+    if tie_ok and proof_ok and (lib.COQ / 'C03' / 'PropsSections.v').exists():
+        sec_ok, log3 = ctx.build_props('C03/PropsSections.v', scan_dirs=[lib.COQ / 'C03'])
     model_ok = tie_ok
     if tie_ok and not proof_ok:
         ok, log, _ = lib.coq_make(['C03/Model.vo'])
@@ -357,6 +424,8 @@ def main(ctx):
     # ------------------------------------------------------------ cases
     n_case = {'quick': 90, 'thorough': 900}.get(tier, 90)
     n_group = {'quick': 40, 'thorough': 400}.get(tier, 40)
+    if widened and tier == 'quick':
+        n_case, n_group = 300, 150
     cases = []
     corpus = sorted((lib.VERIF / 'corpus' / 'C03').glob('*.json')) \
         if (lib.VERIF / 'corpus' / 'C03').exists() else []
@@ -423,17 +492,51 @@ def main(ctx):
                      for x in ('GROUP ' + k, ','.join(str(i) for i in v))]
                 read_items.append((200000 + g['id'], f'lines_eqb (show_ng {cm.coq_lines(g["msh"])}) '
                                                      f'{cm.coq_lines(ngl)}'))
-    bad_text = bad_read = None
+    # number layer: Fmt.fmt_text (model of "%.<k>E" on the exact binary64) = C printf, on every value
+    # of the cases for the digits of its section and on extra values for all three formats
+    fmt_vals = {}
+    for m in cases:
+        for k, (ids_, rows_) in (m.get('constraints_eff') or m['constraints']).items():
+            for row in rows_:
+                for h in row:
+                    v = fx(h)
+                    if not math.isnan(v):
+                        fmt_vals[(float(v).hex(), FRAC[k])] = v
+    for _ in range({'quick': 300}.get(tier, 3000)):
+        v = rand_value(ctx.rng) if ctx.rng.random() < 0.7 else \
+            ctx.rng.choice([1, -1]) * ctx.rng.random() * 2.0 ** ctx.rng.randint(-1074, 1023)
+        fmt_vals[(float(v).hex(), ctx.rng.choice([5, 6, 12]))] = v
+    fmt_keys = sorted(fmt_vals)
+    fmt_items = []
+    for n_, (hx, frac) in enumerate(fmt_keys):
+        v = fmt_vals[(hx, frac)]
+        neg, mm, ee = float_parts(v)
+        want = '%.*E' % (frac, v)
+        assert want == cm.f2dec(v, frac), (want, cm.f2dec(v, frac))
+        fmt_items.append((n_, f'String.eqb (Fmt.fmt_text {frac} {"true" if neg else "false"} '
+                              f'{lib.coq_Z(mm)} {lib.coq_Z(ee)}) {lib.coq_str(want)}'))
+    bad_text = bad_read = bad_fmt = None
     if model_ok:
         t0 = time.time()
+        bad_fmt = coq_failing(ctx, 'CorrFmt', fmt_items)
+        ctx.log(f'number layer in Coq ({len(fmt_items)} values): disagreements {bad_fmt}')
         bad_text = coq_failing(ctx, 'CorrText', text_items)
         bad_read = coq_failing(ctx, 'CorrRead', read_items)
         ctx.log(f'correspondence in Coq ({len(text_items)} texts, {len(read_items)} reads): '
                 f'{time.time() - t0:.1f}s; disagreements: text {bad_text}, read {bad_read}')
-    ctx.corr = {'cases': len(text_items) + len(read_items), 'text_cases': len(text_items),
-                'read_cases': len(read_items),
-                'disagreements': (len(bad_text) + len(bad_read))
-                if bad_text is not None and bad_read is not None else 'not evaluated'}
+    ctx.corr = {'cases': len(text_items) + len(read_items) + len(fmt_items), 'text_cases': len(text_items),
+                'read_cases': len(read_items), 'number_cases': len(fmt_items),
+                'disagreements': (len(bad_text) + len(bad_read) + len(bad_fmt))
+                if bad_text is not None and bad_read is not None and bad_fmt is not None
+                else 'not evaluated'}
+
+    if relevant:
+        ctx.notes['tie'] = '; '.join(
+            f'tie: H (translator could not read {k}: {v}; baseline model + widened correspondence, '
+            f'{len(text_items) + len(read_items)} cases)' for k, v in sorted(relevant.items()))
+        ctx.log(ctx.notes['tie'])
+    else:
+        ctx.notes['tie'] = 'T (all regions translated from the tree under test) + H (correspondence)'
 
     # node groups handed to the model = node groups femio read
     ng_bad = []
@@ -558,7 +661,25 @@ def main(ctx):
         ctx.violation('correspondence', {'group_cases': ng_bad[:5]}, 'node groups = ALL + !NGROUP blocks',
                       'femio read other node groups', 'correspondence C03 node groups',
                       found_input=False, signature={'kind': 'correspondence', 'side': 'node_groups'})
-    if model_ok and (bad_text is None or bad_read is None):
+    if bad_fmt:
+        for n_ in bad_fmt[:3]:
+            hx, frac = fmt_keys[n_]
+            v = fmt_vals[(hx, frac)]
+            neg, mm, ee = float_parts(v)
+            model = coq_show(ctx, 'Explain', f'[Fmt.fmt_text {frac} {"true" if neg else "false"} '
+                                             f'{lib.coq_Z(mm)} {lib.coq_Z(ee)}]')
+            ctx.violation('correspondence', {'value_hex': hx, 'digits': frac}, {'model': model},
+                          {'printf': '%.*E' % (frac, v)}, 'correspondence C03 number layer: Fmt.fmt_text = %.kE',
+                          found_input=True, signature={'kind': 'correspondence', 'side': 'fmt'},
+                          what='the model of %.kE differs from C printf on this binary64')
+    if tie_ok and proof_ok and not sec_ok:
+        ctx.violation('proof-broken', {'cnt_sections': tables.get('cnt_sections_canon')},
+                      'write_cnt writes the sections the model was written for (key, header, arrays, '
+                      'digits, order)', 'the translated section table differs',
+                      'C03_cnt_sections_as_modelled', found_input=impl_bad > 0 or bool(bad_text),
+                      signature={'kind': 'cfg-sections'},
+                      what='per-run obligation on the translated section table of write_cnt fails')
+    if model_ok and (bad_text is None or bad_read is None or bad_fmt is None):
         ctx.violation('correspondence', {}, 'correspondence files compile', 'coqc failed',
                       'correspondence C03', found_input=False,
                       signature={'kind': 'correspondence', 'side': 'coqc'})
